@@ -187,6 +187,55 @@ def rule_a(ctx: Context, R: Reporter):
                                 msg=f"{m.short}: `{unparse(c)[:60]}` passes an array of field '{tag}' to the clusterer, which is fitted in unit-cube coordinates `u`: labels are "
                                     f"predicted in the wrong coordinate system and refer to other clusters' modes", key=f"cluster-coords:{m.short}:{c.func.attr}:{_ord(c, m)}")
     R.floor("C14.a", "clusterer fit/predict argument sites", n_args, 3)
+    # ... and in one frame: what is fitted and what is labelled are rows of the stored positions, not a shifted / rotated /
+    # rescaled copy of them (a transformation applied on one side only puts labels and modes in different frames)
+    n_frame = 0
+    for (sc, attr) in users:
+        for m in sc.methods.values():
+            fl = flow_of(m.node)
+            tgr = Tagger(ctx, m)
+            for nd in fl.cfg.stmt_nodes():
+                for c in calls_in_node(nd):
+                    if not (isinstance(c.func, ast.Attribute) and c.func.attr in ("fit", "predict", "predict_proba") and cl in [t for t in ctx.res.expr_types(m, c.func.value) if isinstance(t, ClassInfo)] and c.args):
+                        continue
+                    n_frame += 1
+                    todo = [(c.args[0], nd, 0)]
+                    seen_defs = set()
+                    verdict = None
+                    while todo and verdict is None:
+                        e, at, depth = todo.pop()
+
+                        def outside_slices(x):
+                            yield x
+                            for f_, v_ in ast.iter_fields(x):
+                                if isinstance(x, ast.Subscript) and f_ == "slice":
+                                    continue
+                                for ch in (v_ if isinstance(v_, list) else [v_]):
+                                    if isinstance(ch, ast.AST):
+                                        yield from outside_slices(ch)
+
+                        for x in outside_slices(e):
+                            if isinstance(x, ast.BinOp) and not isinstance(x.op, ast.MatMult) and any(tgr.tag(o, at) == "u" for o in (x.left, x.right)):
+                                verdict = x
+                                break
+                            if isinstance(x, ast.Call) and (ctx.res.external_name(m, x) or "") in ("numpy.mod", "numpy.remainder", "numpy.add", "numpy.subtract", "numpy.multiply", "numpy.roll") \
+                                    and x.args and tgr.tag(x.args[0], at) == "u":
+                                verdict = x
+                                break
+                            if isinstance(x, ast.Name) and isinstance(x.ctx, ast.Load) and depth < 6:
+                                for d in fl.reaching(at, x.id):
+                                    if d.kind == "assign" and d.value is not None and id(d) not in seen_defs and d.node is not None:
+                                        seen_defs.add(id(d))
+                                        if d.path and isinstance(d.value, ast.Call) and any(isinstance(t, FuncInfo) for t in ctx.res.call_targets(m, d.value)):
+                                            raise AnalysisError(f"C14.a: {m.short}: the clusterer's argument comes out of the helper call `{unparse(d.value)[:50]}` (frame not followed)")
+                                        todo.append((d.value, d.node, depth + 1))
+                                    elif d.kind == "aug" and isinstance(d.value, ast.AugAssign) and tgr.tag(d.value.target, d.node) == "u" and id(d) not in seen_defs:
+                                        seen_defs.add(id(d))
+                                        verdict = d.value
+                    R.check("C14.a", f"{m.short}: the clusterer's {c.func.attr} receives the stored positions themselves (one frame for fitting and labelling)", verdict is None, m, c,
+                            msg=f"{m.short}: the array passed to `{unparse(c)[:50]}` is a transformed copy of the positions (`{unparse(verdict)[:50] if verdict is not None else ''}`): the other users of the shared "
+                                f"clusterer work in the stored frame, so walkers are labelled with modes fitted in another frame", key=f"cluster-frame:{m.short}:{c.func.attr}:{_ord(c, m)}")
+    R.floor("C14.a", "clusterer argument sites checked for one frame", n_frame, 3)
     for (sc, m, nd, c) in sites:
         fl = flow_of(m.node)
         cfg = fl.cfg
@@ -1066,6 +1115,10 @@ def variants():
 
     eig_fix = "w_, V_ = np.linalg.eigh(self.covariances)\nself.covariances = np.einsum('{spec}', V_, np.maximum(w_, 1e-300), V_)"
     return [
+        Variant("a-fit-in-rotated-frame", "bad", _ib2(tr, "Trainer.run", "self.clusterer.fit(u, weights_trimmed)", "u = (u - 0.25) % 1.0"), ["C14.a"], quick=True),
+        Variant("a-fit-in-rescaled-frame-in-place", "bad", _ib2(tr, "Trainer.run", "self.clusterer.fit(u, weights_trimmed)", "u *= 0.5"), ["C14.a"]),
+        Variant("a-benign-fit-on-contiguous-copy", "benign", _ib2(tr, "Trainer.run", "self.clusterer.fit(u, weights_trimmed)", "u = np.ascontiguousarray(u)")),
+
         Variant("l-no-clusterer-for-single-cluster-cap", "bad", replace_expr(core, "SamplerCore.__init__", "config.clustering", "config.clustering and config.n_max_clusters != 1", nth=0), ["C14.l"], quick=True),
         Variant("k-resampler-labels-if-ever-fitted", "bad", replace_expr("tempest/steps/resample.py", "Resampler.run", "self.clusterer.predict(u_resampled) if self.clustering else np.zeros(self.n_particles, dtype=int)",
                                                                         "self.clusterer.predict(u_resampled) if self.clustering and self.clusterer.n_clusters_ > 0 else np.zeros(self.n_particles, dtype=int)"), ["C14.k"], quick=True),
